@@ -314,8 +314,8 @@ pub fn run(cfg: &Cfg, rep: &mut Report) {
     rep.rule = "case = one scene (every fourth with a discarding cut-out material) of 2..10 overlapping / interpenetrating / nested / coplanar-offset / clipped triangles in a buffer ≤ 48 px, rendered under ~20..40 histories (all permutations for n ≤ 4 else 24 random, 8 random ordered partitions into separate calls, all depth_sort settings, one call per triangle reversed); non-trivial = at least one pixel covered by two layers; distinct by hash of the scene; plus painter scenes with disjoint depth slabs".into();
     rep.assumptions.push("solo renders of the same rasteriser are the layers; their absolute correctness is C01/C04/C05's subject".into());
     rep.assumptions.push("pixels where two layers have exactly equal reciprocal depth are excluded, as the property states".into());
-    rep.run_stream(cfg, 0, "order_histories", cfg.n(30_000, 2_000_000), |rng, i, rep| order_case(rng, rep, i));
-    rep.run_stream(cfg, 1, "painter_disjoint_depths", cfg.n(40_000, 2_000_000), |rng, _, rep| painter_case(rng, rep));
+    rep.run_stream(cfg, 0, "order_histories", cfg.n(40_000, 5_000_000), |rng, i, rep| order_case(rng, rep, i));
+    rep.run_stream(cfg, 1, "painter_disjoint_depths", cfg.n(60_000, 6_000_000), |rng, _, rep| painter_case(rng, rep));
     rep.floor("histories_rendered", 50_000);
     rep.floor("scenes_with_discarding_shader", 1_000);
     rep.floor("pixels_with_overlapping_layers", 200_000);
